@@ -97,6 +97,13 @@ Proof.
   inversion H as [|f f' r r' Hf _]; subst; [reflexivity|]. rewrite (proj1 (fsim_def _ _ Hf)). reflexivity.
 Qed.
 
+Lemma sep_blocked_sim d fs fs' : Forall2 fsim fs fs' -> sep_blocked d fs = sep_blocked d fs'.
+Proof.
+  intros H. unfold sep_blocked. f_equal. inversion H as [|f f' r r' Hf _]; subst; [reflexivity|].
+  destruct f as [? ? ? ?|? ? ?|b ? ?], f' as [? ? ? ?|? ? ?|b' ? ?]; simpl in Hf; try contradiction; try reflexivity.
+  subst. reflexivity.
+Qed.
+
 Lemma step_sim it it' n n' st st' st1 :
   untok_item it = untok_item it' -> ssim st st' -> spine_step it n st = Some st1 ->
   exists st1', spine_step it' n' st' = Some st1' /\ ssim st1 st1'.
@@ -113,8 +120,10 @@ Proof.
     destruct (pop_sim d _ _ _ _ _ _ HF Ho Ep) as (fs1' & t1' & Ep' & HF1 & Ht1). rewrite Ep'.
     eexists. split; [reflexivity|]. split; [exact HF1|]. cbn [snd osim]. unfold sg in *. cbn [gt].
     apply strip_bin; auto; apply gt_node.
-  - destruct (ref_rank d); [|discriminate H]. destruct (pop d fs t) as [fs1 t1] eqn:Ep. injection H as <-.
+  - destruct (ref_rank d); [|discriminate H]. destruct (pop d fs t) as [fs1 t1] eqn:Ep.
+    destruct (sep_blocked d fs1) eqn:Esb; [discriminate H|]. injection H as <-.
     destruct (pop_sim d _ _ _ _ _ _ HF Ho Ep) as (fs1' & t1' & Ep' & HF1 & Ht1). rewrite Ep'.
+    rewrite <- (sep_blocked_sim d _ _ HF1), Esb.
     eexists. split; [reflexivity|]. split; [|exact I]. constructor; [split; [reflexivity|exact Ht1]|exact HF1].
   - injection H as <-. eexists. split; [reflexivity|]. split; [constructor; [reflexivity|exact HF]|exact I].
   - destruct (close_group b fs t) as [[fs1 t1]|] eqn:Ec; [|discriminate H]. injection H as <-.
@@ -290,7 +299,10 @@ Qed.
 (* the items of a token list are ranked (finite check over the token table) *)
 Definition tok_ranked (t : token_type) : bool :=
   match ref_kind t with
-  | KBinary | KPrefix | KSuffix => match ref_rank (ref_def t) with Some p => N.ltb p INF | None => false end
+  | KBinary => match ref_rank (ref_def t) with
+               | Some p => N.ltb p INF && (is_sep_def (ref_def t) || N.ltb p ROUND_LIMIT)
+               | None => false end
+  | KPrefix | KSuffix => match ref_rank (ref_def t) with Some p => N.ltb p ROUND_LIMIT | None => false end
   | _ => true
   end.
 
@@ -311,13 +323,14 @@ Proof.
                        | Some p => if sp && ends_value_k p && starts_value_k (ref_kind t) then [IBinary D_List None] else []
                        | None => [] end)).
     { destruct prev as [p|]; [|constructor]. destruct (sp && ends_value_k p && _); constructor; [|constructor].
-      simpl. exists 220%N. split; reflexivity. }
+      simpl. exists 220%N. split; [reflexivity|]. split; [reflexivity|intros _; reflexivity]. }
     destruct (ref_kind t) eqn:Ek; try discriminate H;
       try (destruct (items_of r (S i) _ false) as [rest|] eqn:E; [|discriminate H]; injection H as <-;
            apply Forall_app in Hs; destruct Hs as [_ Hs]; inversion Hs as [|? ? Hs1 Hs2]; subst;
            apply Forall_app; split; [exact Hlead|]; constructor; [|eapply IH; [exact E|exact Hs2]]).
     + simpl. apply Hs1.
-    + simpl. destruct (ref_rank (ref_def t)) as [p|]; [|discriminate Hr]. exists p. split; [reflexivity|apply N.ltb_lt; exact Hr].
+    + simpl. destruct (ref_rank (ref_def t)) as [p|]; [|discriminate Hr]. apply andb_true_iff in Hr. destruct Hr as [Hr1 Hr2].
+      exists p. split; [reflexivity|]. split; [apply N.ltb_lt; exact Hr1|]. intros Hsd. rewrite Hsd in Hr2. apply N.ltb_lt. exact Hr2.
     + simpl. destruct (ref_rank (ref_def t)) as [p|]; [|discriminate Hr]. exists p. split; [reflexivity|apply N.ltb_lt; exact Hr].
     + simpl. destruct (ref_rank (ref_def t)) as [p|]; [|discriminate Hr]. exists p. split; [reflexivity|apply N.ltb_lt; exact Hr].
     + exact I.
@@ -382,7 +395,8 @@ Proof.
     + destruct (ref_rank d); [|discriminate Es]. injection Es as <-. cbn [top_is_access frame_def] in Ht.
       simpl in Hx1. rewrite Hx1 in Ht. discriminate Ht.
     + destruct (ref_rank d); [|discriminate Es]. destruct (pop d fs0 t). discriminate Es.
-    + destruct (ref_rank d); [|discriminate Es]. destruct (pop d fs0 t) as [fs1 t1]. injection Es as <-.
+    + destruct (ref_rank d); [|discriminate Es]. destruct (pop d fs0 t) as [fs1 t1].
+      destruct (sep_blocked d fs1); [discriminate Es|]. injection Es as <-.
       cbn [top_is_access frame_def] in Ht. exists A0, d, k. split; [reflexivity|exact Ht].
     + injection Es as <-. destruct b; discriminate Ht.
     + destruct (close_group b fs0 t) as [[? ?]|]; discriminate Es.
@@ -520,24 +534,29 @@ Proof.
   destruct fs; [unfold base; destruct bb|]; reflexivity.
 Qed.
 
-Lemma run_app_base : forall its n fs acc fs1 acc1,
+Definition nosep_item (it : item) : bool :=
+  match it with IBinary d _ => negb (is_sep_def d) | _ => true end.
+
+Lemma run_app_base : forall its n fs acc fs1 acc1, forallb nosep_item its = true ->
   spine_run its n (fs, acc) = Some (fs1, acc1) -> spine_run its n (fs ++ base, acc) = Some (fs1 ++ base, acc1).
 Proof.
-  induction its as [|it r IH]; intros n fs acc fs1 acc1 H.
+  induction its as [|it r IH]; intros n fs acc fs1 acc1 Hns H.
   - injection H as <- <-. reflexivity.
-  - cbn [spine_run] in *. destruct (spine_step it n (fs, acc)) as [[fs2 acc2]|] eqn:Es; [|discriminate H].
+  - cbn [forallb] in Hns. apply andb_true_iff in Hns. destruct Hns as [Hit Hns].
+    cbn [spine_run] in *. destruct (spine_step it n (fs, acc)) as [[fs2 acc2]|] eqn:Es; [|discriminate H].
     assert (Es' : spine_step it n (fs ++ base, acc) = Some (fs2 ++ base, acc2)).
     { destruct it as [d k|d k|d k|d k|b k|b k]; destruct acc as [t|]; cbn [spine_step] in *; try discriminate Es.
       - injection Es as <- <-. rewrite atom_store_app_base. reflexivity.
       - destruct (ref_rank d); [|discriminate Es]. injection Es as <- <-. reflexivity.
       - destruct (ref_rank d); [|discriminate Es]. destruct (pop d fs t) as [fs3 t3] eqn:Ep. injection Es as <- <-.
         rewrite (pop_app_base d _ _ _ _ Ep). reflexivity.
-      - destruct (ref_rank d); [|discriminate Es]. destruct (pop d fs t) as [fs3 t3] eqn:Ep. injection Es as <- <-.
-        rewrite (pop_app_base d _ _ _ _ Ep). reflexivity.
+      - destruct (ref_rank d); [|discriminate Es]. destruct (pop d fs t) as [fs3 t3] eqn:Ep.
+        cbn [nosep_item] in Hit. apply negb_true_iff in Hit. unfold sep_blocked in *. rewrite Hit in *. cbn [andb] in *.
+        injection Es as <- <-. rewrite (pop_app_base d _ _ _ _ Ep). reflexivity.
       - injection Es as <- <-. reflexivity.
       - destruct (close_group b fs t) as [[fs3 t3]|] eqn:Ec; [|discriminate Es]. injection Es as <- <-.
         rewrite (close_group_app_base _ _ _ _ _ Ec). reflexivity. }
-    rewrite Es'. apply IH. exact H.
+    rewrite Es'. apply IH; assumption.
 Qed.
 
 Lemma close_group_nogroup : forall fs t, existsb is_fgroup fs = false ->
@@ -562,20 +581,20 @@ Qed.
 
 Lemma parens_group_machine A Ee E1 E1' B B' j c k1 k2 c1 c2 fse te st T1 :
   map untok_item Ee = map untok_item E1 -> map untok_item Ee = map untok_item E1' ->
-  map untok_item B = map untok_item B' ->
+  map untok_item B = map untok_item B' -> forallb nosep_item Ee = true ->
   spine_run Ee 0 ([], None) = Some (fse, Some te) -> existsb is_fgroup fse = false ->
   spine_run (A ++ IOpen BRound j :: E1 ++ IClose BRound c :: B) 0 ([], None) = Some st ->
   spine_insert (A ++ IOpen BRound j :: E1 ++ IClose BRound c :: B) = Some T1 ->
   exists T1', spine_insert (A ++ IOpen BRound k1 :: IOpen BRound k2 :: E1' ++ IClose BRound c1 :: IClose BRound c2 :: B') = Some T1' /\
               sg T1' = sg T1.
 Proof.
-  intros Hu1 Hu1' HuB Hre Hng Hr Hi. pose proof Hr as Hr0. rewrite spine_run_app in Hr.
+  intros Hu1 Hu1' HuB Hnse Hre Hng Hr Hi. pose proof Hr as Hr0. rewrite spine_run_app in Hr.
   destruct (spine_run A 0 ([], None)) as [[fsA accA]|] eqn:EA; [|discriminate Hr].
   set (nA := fold_left (fun m it => next_index it m) A 0) in *.
   cbn [spine_run] in Hr. destruct accA as [tA|]; [discriminate Hr|]. cbn [spine_step next_index] in Hr.
   rewrite spine_run_app in Hr.
   (* the group in the original run *)
-  pose proof (run_app_base BRound nA j fsA Ee 0 [] None fse (Some te) Hre) as Tb. cbn [app] in Tb.
+  pose proof (run_app_base BRound nA j fsA Ee 0 [] None fse (Some te) Hnse Hre) as Tb. cbn [app] in Tb.
   destruct (run_sim Ee E1 0 (S nA) _ _ _ Hu1 (ssim_refl_none _) Tb) as (s1 & R1 & S1).
   cbn [fst snd] in *. rewrite R1 in Hr. cbn [spine_run] in Hr.
   destruct (close_step_sim fse BRound nA j fsA te s1 c (fold_left (fun m it => next_index it m) E1 (S nA)) Hng S1)
@@ -585,7 +604,7 @@ Proof.
   assert (Hst : exists st', spine_run (A ++ IOpen BRound k1 :: IOpen BRound k2 :: E1' ++ IClose BRound c1 :: IClose BRound c2 :: B') 0 ([], None) = Some st'
                             /\ ssim st st').
   { rewrite spine_run_app, EA. fold nA. cbn [spine_run spine_step next_index]. rewrite spine_run_app.
-    pose proof (run_app_base BRound (S nA) k2 (FGroup BRound nA k1 :: fsA) Ee 0 [] None fse (Some te) Hre) as Tb'. cbn [app] in Tb'.
+    pose proof (run_app_base BRound (S nA) k2 (FGroup BRound nA k1 :: fsA) Ee 0 [] None fse (Some te) Hnse Hre) as Tb'. cbn [app] in Tb'.
     destruct (run_sim Ee E1' 0 (S (S nA)) _ _ _ Hu1' (ssim_refl_none _) Tb') as (s1w & R1w & S1w).
     cbn [fst snd] in *. rewrite R1w. cbn [spine_run].
     destruct (close_step_sim fse BRound (S nA) k2 (FGroup BRound nA k1 :: fsA) te s1w c1
@@ -648,13 +667,31 @@ Proof.
   f_equal. rewrite <- !app_assoc. reflexivity.
 Qed.
 
+Lemma items_of_nosep : forall l i prev sp its, no_separators l = true ->
+  items_of l i prev sp = Some its -> forallb nosep_item its = true.
+Proof.
+  induction l as [|t r IH]; intros i prev sp its Hns H; [injection H as <-; reflexivity|].
+  cbn [no_separators forallb] in Hns. apply andb_true_iff in Hns. destruct Hns as [Ht Hns]. apply negb_true_iff in Ht.
+  fold (no_separators r) in Hns. cbn [items_of] in H. unfold sep_tok in Ht.
+  assert (Hlead : forallb nosep_item
+                    (match prev with
+                     | Some p => if sp && ends_value_k p && starts_value_k (ref_kind t) then [IBinary D_List None] else []
+                     | None => [] end) = true).
+  { destruct prev as [p|]; [|reflexivity]. destruct (sp && ends_value_k p && _); reflexivity. }
+  destruct (ref_kind t) eqn:Ek; try discriminate H; try (eapply IH; [exact Hns|exact H]);
+    (destruct (items_of r (S i) _ false) as [rest|] eqn:E; [|discriminate H]; injection H as <-;
+     cbn [starts_value_k] in Hlead; rewrite forallb_app, Hlead; cbn [forallb andb nosep_item]; rewrite (IH _ _ _ _ Hns E), ?andb_true_r;
+     first [reflexivity | rewrite Ht; reflexivity]).
+Qed.
+
 Theorem parens_group (pre e post : list token_type) (T Te : rtree) :
   pratt (pre ++ TT_StartGroup :: e ++ TT_EndGroup :: post) = Some T -> pratt e = Some Te ->
+  no_separators e = true ->
   exists g g', parse_tree (pre ++ TT_StartGroup :: e ++ TT_EndGroup :: post) = Some g /\
                parse_tree (pre ++ TT_StartGroup :: TT_StartGroup :: e ++ TT_EndGroup :: TT_EndGroup :: post) = Some g' /\
                strip_groups g' = strip_groups g.
 Proof.
-  intros Hpr Hpe.
+  intros Hpr Hpe Hnse.
   destruct (pratt_machine _ _ Hpr) as (its & st & T1 & Hits & Hr & Hi & Hsg).
   destruct (items_wrap_group pre e post its Hits)
     as (A' & Ee & E1 & E1' & B & B' & j & c & k2 & c1 & c2 & HEe & -> & Hits' & Hu1 & Hu1' & HuB).
@@ -662,7 +699,7 @@ Proof.
   rewrite HEe in HEe0. injection HEe0 as <-.
   unfold spine_insert in Hie. rewrite Hre in Hie. destruct ste as [fse [te|]]; [|discriminate Hie].
   destruct (existsb is_fgroup fse) eqn:Hng; [discriminate Hie|].
-  destruct (parens_group_machine A' Ee E1 E1' B B' j c j k2 c1 c2 fse te st T1 Hu1 Hu1' HuB Hre Hng Hr Hi)
+  destruct (parens_group_machine A' Ee E1 E1' B B' j c j k2 c1 c2 fse te st T1 Hu1 Hu1' HuB (items_of_nosep _ _ _ _ _ Hnse HEe) Hre Hng Hr Hi)
     as (T1' & Hi' & Hsg').
   destruct (machine_parse_tree _ _ _ Hits' Hi') as (g' & Hg' & Hs').
   exists (rg false T), g'. split; [apply parse_tree_pratt; exact Hpr|]. split; [exact Hg'|].
